@@ -248,3 +248,354 @@ pub proof fn lemma_add_hint_value(a: int, b: int, c: int, d: int, g: int, ddg: i
     assert(dd * g == b * d) by (nonlinear_arith) requires d == ddg * g, dd == b * ddg;
     assert(n * (dd * g) == (nn * g) * dn) by (nonlinear_arith) requires n * dd == nn * dn;
 }
+
+// (a/b) / (c/d) for Relaxed: N = (a*d)*s over D = b*|c| (s = sign of c), stored as n/dn with n*D == N*dn
+pub proof fn lemma_relaxed_div_value(a: int, b: int, c: int, d: int, s: int, n: int, dn: int)
+    requires (s == 1 && c >= 0) || (s == -1 && c < 0), n * (b * rabs(c)) == ((a * d) * s) * dn
+    ensures n * (b * c) == (a * d) * dn
+{
+    let ad = a * d;
+    let bc = b * rabs(c);
+    assert(b * c == s * bc) by (nonlinear_arith) requires bc == b * rabs(c), (s == 1 && rabs(c) == c) || (s == -1 && rabs(c) == -c);
+    assert(n * (s * bc) == ad * dn) by (nonlinear_arith) requires n * bc == (ad * s) * dn, s == 1 || s == -1;
+}
+
+// ---- coprimality of products (Bezout -> Euclid's lemma -> products), from the divisibility definition ----
+pub proof fn lemma_gcd_sym(g: int, a: int, b: int)
+    requires is_gcd(g, a, b)
+    ensures is_gcd(g, b, a)
+{
+    assert forall|d: int| d > 0 && #[trigger] divides(d, b) && divides(d, a) implies divides(d, g) by {
+        assert(divides(d, a));
+    }
+}
+
+pub proof fn lemma_divides_lincomb(d: int, x: int, y: int, k: int)
+    requires divides(d, x), divides(d, y)
+    ensures divides(d, k * x + y)
+{
+    lemma_divides_elim(d, x);
+    lemma_divides_elim(d, y);
+    let q1 = x / d;
+    let q2 = y / d;
+    let q = k * q1 + q2;
+    assert(k * x + y == q * d) by (nonlinear_arith) requires x == q1 * d, y == q2 * d, q == k * q1 + q2;
+    lemma_divides_intro(d, q, k * x + y);
+}
+
+// a positive m coprime to 0 is 1
+pub proof fn lemma_coprime_zero(m: int)
+    requires m > 0, is_gcd(1, 0, m)
+    ensures m == 1
+{
+    lemma_divides_intro(m, 0, 0);
+    lemma_divides_intro(m, 1, m);
+    assert(divides(m, 0) && divides(m, m));
+    assert(divides(m, 1));
+    lemma_divides_one(m);
+}
+
+pub proof fn lemma_bezout(a: int, b: int) -> (xy: (int, int))
+    requires a >= 0, b >= 0, is_gcd(1, a, b)
+    ensures a * xy.0 + b * xy.1 == 1
+    decreases b
+{
+    if b == 0 {
+        if a == 0 {
+            lemma_divides_intro(2, 0, 0);
+            assert(divides(2, a) && divides(2, b));
+            assert(divides(2, 1));
+            assert(1int % 2int == 1) by (compute);
+            assert(false);
+        }
+        lemma_gcd_sym(1, a, b);
+        lemma_coprime_zero(a);
+        (1, 0)
+    } else {
+        let r = a % b;
+        let q = a / b;
+        vstd::arithmetic::div_mod::lemma_fundamental_div_mod(a, b);
+        vstd::arithmetic::div_mod::lemma_mod_bound(a, b);
+        assert(b * q == q * b) by (nonlinear_arith);
+        lemma_one_divides(b);
+        lemma_one_divides(r);
+        assert forall|d: int| d > 0 && #[trigger] divides(d, b) && divides(d, r) implies divides(d, 1) by {
+            lemma_divides_lincomb(d, b, r, q);
+            assert(divides(d, a));
+        }
+        assert(is_gcd(1, b, r));
+        let (x1, y1) = lemma_bezout(b, r);
+        let x = y1;
+        let y = x1 - q * y1;
+        assert(a * x + b * y == 1) by (nonlinear_arith)
+            requires b * x1 + r * y1 == 1, a == q * b + r, x == y1, y == x1 - q * y1;
+        (x, y)
+    }
+}
+
+// Euclid's lemma: p | x*y and gcd(p, x) = 1  ==>  p | y
+pub proof fn lemma_euclid_lemma(p: int, x: int, y: int)
+    requires p > 0, x >= 0, is_gcd(1, p, x), divides(p, x * y)
+    ensures divides(p, y)
+{
+    let (s, t) = lemma_bezout(p, x);
+    let xy = x * y;
+    lemma_divides_elim(p, xy);
+    let k = xy / p;
+    let m = s * y + k * t;
+    assert(y == y * (p * s + x * t));
+    assert(y * (p * s + x * t) == p * (s * y) + xy * t) by (nonlinear_arith) requires xy == x * y;
+    assert(xy * t == p * (k * t)) by (nonlinear_arith) requires xy == k * p;
+    assert(p * (s * y) + p * (k * t) == m * p) by (nonlinear_arith) requires m == s * y + k * t;
+    lemma_divides_intro(p, m, y);
+}
+
+pub proof fn lemma_coprime_mul(x: int, y: int, m: int)
+    requires x >= 0, y >= 0, m >= 0, is_gcd(1, x, m), is_gcd(1, y, m)
+    ensures is_gcd(1, x * y, m)
+{
+    lemma_one_divides(x * y);
+    lemma_one_divides(m);
+    assert forall|d: int| d > 0 && #[trigger] divides(d, x * y) && divides(d, m) implies divides(d, 1) by {
+        lemma_one_divides(d);
+        lemma_one_divides(x);
+        assert forall|e: int| e > 0 && #[trigger] divides(e, d) && divides(e, x) implies divides(e, 1) by {
+            lemma_divides_trans(e, d, m);
+            assert(divides(e, x) && divides(e, m));
+        }
+        assert(is_gcd(1, d, x));
+        lemma_euclid_lemma(d, x, y);
+        assert(divides(d, y) && divides(d, m));
+    }
+}
+
+// a factor of x stays coprime to m
+pub proof fn lemma_coprime_factor(x: int, x1: int, k: int, m: int)
+    requires is_gcd(1, x, m), x == k * x1
+    ensures is_gcd(1, x1, m)
+{
+    lemma_one_divides(x1);
+    lemma_one_divides(m);
+    assert forall|d: int| d > 0 && #[trigger] divides(d, x1) && divides(d, m) implies divides(d, 1) by {
+        lemma_divides_elim(d, x1);
+        let q = x1 / d;
+        let kq = k * q;
+        assert(x == kq * d) by (nonlinear_arith) requires x == k * x1, x1 == q * d, kq == k * q;
+        lemma_divides_intro(d, kq, x);
+        assert(divides(d, x) && divides(d, m));
+    }
+}
+
+pub proof fn lemma_rabs_mul(x: int, y: int)
+    ensures rabs(x * y) == rabs(x) * rabs(y), (x * y == 0 ==> x == 0 || y == 0)
+{
+    assert(rabs(x * y) == rabs(x) * rabs(y)) by (nonlinear_arith);
+    assert(x * y == 0 ==> x == 0 || y == 0) by (nonlinear_arith);
+}
+
+// cross-cancelling product: a/b * c/d with g1 = gcd(|a|, d), g2 = gcd(b, |c|) is in lowest terms
+pub proof fn lemma_mul_canonical(a: int, b: int, c: int, d: int, g1: int, g2: int, a1: int, b1: int, c1: int, d1: int)
+    requires wf_ratio(a, b), wf_ratio(c, d), is_gcd(g1, rabs(a), d), is_gcd(g2, b, rabs(c)),
+        a == a1 * g1, rabs(a) == rabs(a1) * g1, d == d1 * g1, b == b1 * g2, c == c1 * g2, rabs(c) == rabs(c1) * g2,
+        b1 >= 1, d1 >= 1
+    ensures wf_ratio(a1 * c1, b1 * d1)
+{
+    let aa = rabs(a1);
+    let cc = rabs(c1);
+    // the four pairs
+    lemma_gcd_quot_coprime(g1, rabs(a), d, aa, d1);             // (aa, d1)
+    lemma_gcd_quot_coprime(g2, b, rabs(c), b1, cc);             // (b1, cc)
+    lemma_gcd_sym(1, b1, cc);                                   // (cc, b1)
+    assert(rabs(a) == g1 * aa) by (nonlinear_arith) requires rabs(a) == aa * g1;
+    lemma_coprime_factor(rabs(a), aa, g1, b);                   // (aa, b)
+    lemma_gcd_sym(1, aa, b);
+    assert(b == g2 * b1) by (nonlinear_arith) requires b == b1 * g2;
+    lemma_coprime_factor(b, b1, g2, aa);                        // (b1, aa)
+    lemma_gcd_sym(1, b1, aa);                                   // (aa, b1)
+    assert(rabs(c) == g2 * cc) by (nonlinear_arith) requires rabs(c) == cc * g2;
+    lemma_coprime_factor(rabs(c), cc, g2, d);                   // (cc, d)
+    lemma_gcd_sym(1, cc, d);
+    assert(d == g1 * d1) by (nonlinear_arith) requires d == d1 * g1;
+    lemma_coprime_factor(d, d1, g1, cc);                        // (d1, cc)
+    lemma_gcd_sym(1, d1, cc);                                   // (cc, d1)
+    // products
+    let nn = aa * cc;
+    assert(nn >= 0) by (nonlinear_arith) requires nn == aa * cc, aa >= 0, cc >= 0;
+    lemma_coprime_mul(aa, cc, b1);                              // (nn, b1)
+    lemma_coprime_mul(aa, cc, d1);                              // (nn, d1)
+    lemma_gcd_sym(1, nn, b1);
+    lemma_gcd_sym(1, nn, d1);
+    lemma_coprime_mul(b1, d1, nn);                              // (b1*d1, nn)
+    lemma_gcd_sym(1, b1 * d1, nn);
+    lemma_rabs_mul(a1, c1);
+    assert(b1 * d1 >= 1) by (nonlinear_arith) requires b1 >= 1, d1 >= 1;
+    if a1 * c1 == 0 {
+        if a1 == 0 {
+            lemma_coprime_zero(d1);
+            lemma_coprime_zero(b1);
+        } else {
+            lemma_gcd_sym(1, cc, b1);
+            lemma_gcd_sym(1, cc, d1);
+            lemma_gcd_sym(1, b1, cc);
+            lemma_gcd_sym(1, d1, cc);
+            lemma_coprime_zero(b1);
+            lemma_coprime_zero(d1);
+        }
+        assert(b1 * d1 == 1) by (nonlinear_arith) requires b1 == 1, d1 == 1;
+    }
+}
+
+pub proof fn lemma_wf_sign(n: int, m: int, s: int)
+    requires wf_ratio(n, m), s == 1 || s == -1
+    ensures wf_ratio(n * s, m)
+{
+    assert(rabs(n * s) == rabs(n) && (n * s == 0 ==> n == 0)) by (nonlinear_arith) requires s == 1 || s == -1;
+}
+
+// ---- Repr::reduce_with_hint as used by RBig + / -: what exactly is divided out ----
+pub open spec fn hint_red(hint: int, n: int, d: int, g1: int, h: int, n1: int, d1: int) -> bool {
+    is_gcd(g1, rabs(hint), rabs(n)) && is_gcd(h, rabs(g1), rabs(d)) && n1 == tdiv(n, h) && d1 == d / h
+}
+
+// e | |N|, e | bp  ==>  e | 1, where N = dp*a + bp*c, bp a factor of b, gcd(|a|, b) = 1, gcd(bp, dp) = 1
+pub proof fn lemma_sum_coprime_part(a: int, b: int, c: int, bp: int, dp: int, kb: int, nn: int)
+    requires is_gcd(1, rabs(a), b), is_gcd(1, bp, dp), b == kb * bp, bp >= 1, dp >= 1, nn == dp * a + bp * c
+    ensures is_gcd(1, rabs(nn), bp)
+{
+    lemma_one_divides(rabs(nn));
+    lemma_one_divides(bp);
+    assert forall|e: int| e > 0 && #[trigger] divides(e, rabs(nn)) && divides(e, bp) implies divides(e, 1) by {
+        if nn < 0 { lemma_divides_neg(e, -nn); }
+        assert(divides(e, nn));
+        lemma_divides_elim(e, bp);
+        let q = bp / e;
+        let qc = q * c;
+        assert(bp * c == qc * e) by (nonlinear_arith) requires bp == q * e, qc == q * c;
+        lemma_divides_intro(e, qc, bp * c);
+        lemma_divides_lincomb(e, bp * c, nn, -1);
+        let da = dp * a;
+        assert((-1) * (bp * c) + nn == da);
+        assert(divides(e, da));
+        // gcd(e, |a|) = 1
+        lemma_one_divides(e);
+        lemma_one_divides(rabs(a));
+        assert forall|f: int| f > 0 && #[trigger] divides(f, e) && divides(f, rabs(a)) implies divides(f, 1) by {
+            lemma_divides_trans(f, e, bp);
+            lemma_divides_intro(bp, kb, b);
+            lemma_divides_trans(f, bp, b);
+            assert(divides(f, rabs(a)) && divides(f, b));
+        }
+        assert(is_gcd(1, e, rabs(a)));
+        if a < 0 { lemma_divides_neg(e, da); }
+        let ad = rabs(a) * dp;
+        assert(ad == da || ad == -da) by (nonlinear_arith) requires ad == rabs(a) * dp, da == dp * a;
+        assert(divides(e, ad));
+        lemma_euclid_lemma(e, rabs(a), dp);
+        assert(divides(e, bp) && divides(e, dp));
+    }
+}
+
+// gcd(b, d) = 1:  (a*d + c*b) / (b*d) is in lowest terms
+pub proof fn lemma_add_canonical_one(a: int, b: int, c: int, d: int)
+    requires wf_ratio(a, b), wf_ratio(c, d), is_gcd(1, b, d)
+    ensures wf_ratio(a * d + c * b, b * d)
+{
+    let nn = a * d + c * b;
+    assert(nn == d * a + b * c) by (nonlinear_arith) requires nn == a * d + c * b;
+    assert(nn == b * c + d * a) by (nonlinear_arith) requires nn == a * d + c * b;
+    lemma_sum_coprime_part(a, b, c, b, d, 1, nn);
+    lemma_gcd_sym(1, b, d);
+    lemma_sum_coprime_part(c, d, a, d, b, 1, nn);
+    lemma_gcd_sym(1, rabs(nn), b);
+    lemma_gcd_sym(1, rabs(nn), d);
+    lemma_coprime_mul(b, d, rabs(nn));
+    lemma_gcd_sym(1, b * d, rabs(nn));
+    assert(b * d >= 1) by (nonlinear_arith) requires b >= 1, d >= 1;
+    if nn == 0 {
+        lemma_coprime_zero(b * d);
+    }
+}
+
+// gcd(b, d) = g, b = bp*g, d = dp*g, N = dp*a + bp*c over D = b*dp, reduced with hint g
+pub proof fn lemma_add_canonical_hint(a: int, b: int, c: int, d: int, g: int, bp: int, dp: int, nn: int, dd: int,
+                                      g1: int, h: int, n1: int, d1: int)
+    requires wf_ratio(a, b), wf_ratio(c, d), is_gcd(g, b, d), b == bp * g, d == dp * g, bp >= 1, dp >= 1,
+        nn == dp * a + bp * c, dd == b * dp, nn != 0, hint_red(g, nn, dd, g1, h, n1, d1)
+    ensures wf_ratio(n1, d1)
+{
+    let an = rabs(nn);
+    lemma_gcd_quot_coprime(g, b, d, bp, dp);
+    assert(b == g * bp) by (nonlinear_arith) requires b == bp * g;
+    assert(d == g * dp) by (nonlinear_arith) requires d == dp * g;
+    lemma_sum_coprime_part(a, b, c, bp, dp, g, nn);
+    lemma_gcd_sym(1, bp, dp);
+    assert(nn == bp * c + dp * a);
+    lemma_sum_coprime_part(c, d, a, dp, bp, g, nn);
+    lemma_gcd_sym(1, an, bp);
+    lemma_gcd_sym(1, an, dp);
+    lemma_coprime_mul(bp, dp, an);
+    let m = bp * dp;
+    assert(m >= 1) by (nonlinear_arith) requires m == bp * dp, bp >= 1, dp >= 1;
+    assert(dd == m * g) by (nonlinear_arith) requires dd == b * dp, b == bp * g, m == bp * dp;
+    assert(dd >= 1) by (nonlinear_arith) requires dd == m * g, m >= 1, g >= 1;
+    // h is the gcd of |N| and D
+    assert(rabs(g) == g && rabs(g1) == g1 && rabs(dd) == dd);
+    lemma_divides_trans(h, g1, an);
+    assert forall|e: int| e > 0 && #[trigger] divides(e, an) && divides(e, dd) implies divides(e, h) by {
+        lemma_one_divides(e);
+        lemma_one_divides(m);
+        assert forall|f: int| f > 0 && #[trigger] divides(f, e) && divides(f, m) implies divides(f, 1) by {
+            lemma_divides_trans(f, e, an);
+            assert(divides(f, m) && divides(f, an));
+        }
+        assert(is_gcd(1, e, m));
+        lemma_euclid_lemma(e, m, g);
+        assert(divides(e, g) && divides(e, an));
+        assert(divides(e, g1));
+        assert(divides(e, g1) && divides(e, dd));
+    }
+    assert(is_gcd(h, an, dd));
+    lemma_reduce(nn, dd, h, n1, d1);
+}
+
+// RBig a/b + c/d (subtraction: c negated) as computed by impl_add_or_sub_with_rbig, g = gcd(b, d):
+//   g == 1: n/dn = (a*d + c*b) / (b*d);   g != 1: N = (d/g)*a + (b/g)*c over D = b*(d/g), reduced with hint g
+pub open spec fn rbig_addsub_result(a: int, b: int, c: int, d: int, g: int, n: int, dn: int) -> bool {
+    if g == 1 {
+        n == a * d + c * b && dn == b * d
+    } else {
+        let nn = (d / g) * a + (b / g) * c;
+        let dd = b * (d / g);
+        n * dd == nn * dn && dn >= 1 && (nn == 0 ==> n == 0 && dn == 1)
+        && (nn != 0 ==> exists|g1: int, h: int| #[trigger] hint_red(g, nn, dd, g1, h, n, dn))
+    }
+}
+
+pub proof fn lemma_rbig_addsub(a: int, b: int, c: int, d: int, g: int, n: int, dn: int)
+    requires b >= 1, d >= 1, is_gcd(g, b, d), rbig_addsub_result(a, b, c, d, g, n, dn)
+    ensures n * (b * d) == (a * d + c * b) * dn, dn >= 1,
+        wf_ratio(a, b) && wf_ratio(c, d) ==> wf_ratio(n, dn)
+{
+    if g == 1 {
+        assert(b * d >= 1) by (nonlinear_arith) requires b >= 1, d >= 1;
+        if wf_ratio(a, b) && wf_ratio(c, d) {
+            lemma_add_canonical_one(a, b, c, d);
+        }
+    } else {
+        lemma_exact_div(d, g);
+        lemma_exact_div(b, g);
+        let dp = d / g;
+        let bp = b / g;
+        let nn = dp * a + bp * c;
+        let dd = b * dp;
+        lemma_add_hint_value(a, b, c, d, g, dp, bp, nn, dd, n, dn);
+        if wf_ratio(a, b) && wf_ratio(c, d) {
+            if nn == 0 {
+                lemma_wf_zero();
+            } else {
+                let (g1, h) = choose|g1: int, h: int| #[trigger] hint_red(g, nn, dd, g1, h, n, dn);
+                lemma_add_canonical_hint(a, b, c, d, g, bp, dp, nn, dd, g1, h, n, dn);
+            }
+        }
+    }
+}
